@@ -27,21 +27,21 @@ theorem get_set_ne (s : State) (l l' : Loc) (t : Option Tok) (h : l' ≠ l) : (s
     have : (l == l') = false := by simp; exact fun h' => h h'.symm
     simp only [State.set, State.get, List.find?_cons, this, hf]
 
-theorem run_append (vis : List VarInfo) (a b : Int) (sp : Nat) : ∀ (p q : List Inst) (s : State),
-    run vis a b sp s (p ++ q) = (run vis a b sp s p).bind fun s' => run vis a b sp s' q := by
+theorem run_append (vis : List VarInfo) (f : FrameIn) (ar : Arch) : ∀ (p q : List Inst) (s : State),
+    run vis f ar s (p ++ q) = (run vis f ar s p).bind fun s' => run vis f ar s' q := by
   intro p
   induction p with
   | nil => intro q s; simp [run]
   | cons i p ih =>
     intro q s
     simp only [List.cons_append, run]
-    cases step vis a b sp s i with
+    cases step vis f ar s i with
     | none => simp
     | some s' => simp [ih]
 
-theorem run_push (vis : List VarInfo) (a b : Int) (sp : Nat) (p : List Inst) (i : Inst) (s0 s s' : State)
-    (h : run vis a b sp s0 p = some s) (hs : step vis a b sp s i = some s') :
-    run vis a b sp s0 (p ++ [i]) = some s' := by
+theorem run_push (vis : List VarInfo) (f : FrameIn) (ar : Arch) (p : List Inst) (i : Inst) (s0 s s' : State)
+    (h : run vis f ar s0 p = some s) (hs : step vis f ar s i = some s') :
+    run vis f ar s0 (p ++ [i]) = some s' := by
   rw [run_append, h]; simp [run, hs]
 
 end AsmjitVerif.C06S
